@@ -337,10 +337,11 @@ fn c12_emit(sink: &mut Sink, note: &str, outer: &Loop3D, holes: &[Loop3D]) -> Op
 //   op 1 Loop3D::is_diagonal(seg)      2 Loop3D::sanitize()            3 Loop3D::contains_segment(seg)
 //      4 Polygon3D::contains_segment    5 Loop3D::perimeter()           6 Loop3D::area()
 //      7 Loop3D::is_coplanar(p)         8 Loop3D::remove(i)             9 Loop3D index [i]       10 Polygon3D::inner(i)
+//     11 Polygon3D::new(loop) + clone_outer + n_vertices
 // outcome class: booleans 0 false / 1 true; values 0 = Ok; 100 + class = Err; 99 = panic.
 // -------------------------------------------------------------------------------------
 struct Q { op: u32, subj: usize, idx: usize, args: Vec<Float>, lab: &'static str }
-const OP_NAMES: [&str; 11] = ["?", "is_diagonal", "sanitize", "contains_segment", "poly_contains_segment", "perimeter", "area", "is_coplanar", "remove", "index", "inner"];
+const OP_NAMES: [&str; 12] = ["?", "is_diagonal", "sanitize", "contains_segment", "poly_contains_segment", "perimeter", "area", "is_coplanar", "remove", "index", "inner", "poly_new"];
 fn bclass(r: Result<Result<bool, String>, String>) -> u32 { match r { Ok(Ok(false)) => 0, Ok(Ok(true)) => 1, Ok(Err(m)) => 100 + perr_class(&m), Err(_) => 99 } }
 fn seg_of(a: &[Float]) -> Segment3D { Segment3D::new(Point3D::new(a[0], a[1], a[2]), Point3D::new(a[3], a[4], a[5])) }
 /// runs one query on the real objects: (class, floats, loop)
@@ -356,6 +357,10 @@ fn run_query(loops: &[Loop3D], pg: Option<&Polygon3D>, q: &Q) -> (u32, Vec<Float
         7 => (bclass(catch(AUS(|| l.is_coplanar(Point3D::new(a[0], a[1], a[2]))))), vec![], None),
         8 => { let mut c = l.clone(); match catch(AUS(|| c.remove(q.idx))) { Ok(()) => (0, vec![], Some(c)), Err(_) => (99, vec![], None) } }
         9 => match catch(AUS(|| l[q.idx])) { Ok(p) => (0, vec![p.x, p.y, p.z], None), Err(_) => (99, vec![], None) },
+        // Polygon3D::new on any loop (open: Err 34), observed through area / normal / n_inner_loops / clone_outer().n_vertices()
+        11 => match catch(AUS(|| Polygon3D::new(l.clone()))) {
+            Ok(Ok(p)) => { let n = p.normal(); (0, vec![p.area(), n.x, n.y, n.z, p.n_inner_loops() as Float, p.clone_outer().n_vertices() as Float], None) }
+            Ok(Err(m)) => (100 + perr_class(&m), vec![], None), Err(_) => (99, vec![], None) },
         _ => match catch(AUS(|| pg.unwrap().inner(q.idx).map(|x| x.clone()))) { Ok(Ok(x)) => (0, vec![], Some(x)), Ok(Err(m)) => (100 + perr_class(&m), vec![], None), Err(_) => (99, vec![], None) },
     }
 }
@@ -528,6 +533,7 @@ fn c12_ops(sink: &mut Sink, x: &mut Rng, note: &str, fr: &Frame, poly: &[P2], ou
         for (i, l) in loops.iter().enumerate() {
             qs.push(Q { op: 5, subj: i, idx: 0, args: vec![], lab: if l.is_closed() { "closed" } else { "open" } });
             qs.push(Q { op: 6, subj: i, idx: 0, args: vec![], lab: if l.is_closed() { "closed" } else { "open" } });
+            qs.push(Q { op: 11, subj: i, idx: 0, args: vec![], lab: if l.is_closed() { "closed" } else { "open" } });
             let n = l.len();
             let base = if n > 0 { l.vertices()[x.below(n as u64) as usize] } else { Point3D::new(0.0, 0.0, 0.0) };
             let h = *x.pick(&[0.0, 0.5e-7, 0.99e-7, 1.01e-7, 2e-7, 1e-3, 0.5]) * if x.chance(0.5) { 1.0 } else { -1.0 };
@@ -798,6 +804,28 @@ fn malformed_docs(r: &mut Rng) -> Vec<(String, String)> {
     // unusual but valid spellings
     add("valid", "[0,0,0, 1E0,0,0, 1.0e+0,1,0]".into()); add("valid", " [ -0 , 0.0 , 0 , 2 , 0 , 0 , 2 , 3 , -0.0 , 0 , 3 , 0 ] ".into());
     add("valid", "[0.0,0,0,1.0,1,1,2,3,-1]".into());
+    // a multiple of three non-numeric elements: one or two WHOLE points of a convex outline written as junk, the remaining
+    // numbers still a flat array of 3k >= 9 coordinates of a valid outline (seeded change C20-m4: a reader that filters the
+    // numbers out first).  Drawn from a derived generator state, so that the documents above and everything after are unchanged
+    {
+        let mut r2 = Rng(r.0 ^ 0xC20_3333);
+        let m = 5 + r2.below(4) as usize;
+        let rad = r2.range(0.5, 5.0);
+        let hex: Vec<P2> = (0..m).map(|i| { let t = (i as f64 + r2.range(0.2, 0.8)) / m as f64 * std::f64::consts::TAU; (rad * t.cos(), 0.7 * rad * t.sin()) }).collect();
+        let g6 = flat3(&fr, &hex);
+        let junk = ["null", "\"a\"", "true", "{}", "[1,2,3]", "\"1.5\"", "false", "[]"];
+        for npts in [1usize, 1, 2] {
+            let mut parts: Vec<String> = g6.iter().map(|x| serde_json::to_string(x).unwrap()).collect();
+            let i0 = r2.below(m as u64) as usize;
+            for k in 0..npts { let i = (i0 + 2 * k) % m; for c in 0..3 { parts[3 * i + c] = junk[r2.below(junk.len() as u64) as usize].to_string(); } }
+            add("non-numeric-3k", format!("[{}]", parts.join(",")));
+        }
+        // three scattered non-numbers in a z = const outline (the z slots of three points)
+        let sq = [0.0, 0.0, 1.0, 2.0, 0.0, 1.0, 2.0, 2.0, 1.0, 0.0, 2.0, 1.0];
+        let mut parts: Vec<String> = sq.iter().map(|x: &f64| serde_json::to_string(x).unwrap()).collect();
+        for i in [2usize, 5, 8] { parts[i] = "null".to_string(); }
+        add("non-numeric-3k", format!("[{}]", parts.join(",")));
+    }
     d
 }
 
